@@ -355,7 +355,10 @@ theorem gRun_frozen {ε : ℝ} {b x0 : E} {t k : ℕ} (htk : t ≤ k)
   rw [Nat.add_comm, Function.iterate_add_apply, (gStep_frozen_iter hr d).1]
 
 /-- the recursively updated residual of the normalised column IS the true residual of the returned
-vector, in units of `‖b‖`, while the mask is off and no denominator vanishes -/
+vector, in units of `‖b‖`, AND the textbook residual `r_k / ‖b‖`, while the mask is off and no
+denominator vanishes.  (The first conjunct holds with `b ≠ 0` alone — `gState_r_true_any` in
+`Lemmas/CGResidual.lean`: `x` and `r` are updated with the same `α`; the hypotheses are needed for the
+second conjunct only.) -/
 theorem gState_r_true_ok (hA : A.IsSymmetric) (hM : M.IsSymmetric) (pA : PosDefOp A)
     (pM : PosDefOp M) {ε : ℝ} (hε : 0 < ε) {b x0 : E} (hb : b ≠ 0) {k : ℕ}
     (hg : StepOKN A M ε b x0 k) :
